@@ -161,7 +161,7 @@ Proof.
 Qed.
 
 (** a mutation: overwrite the cell at an existing location, or allocate a new one *)
-Definition mut := (loc * cell)%type.
+Definition mut := (nat * cell)%type.
 Definition apply_mut (h : heap) (m : mut) : heap := if fst m <? length h then set_nth h (fst m) (snd m) else h ++ [snd m].
 Definition mut_ok (n : nat) (m : mut) : Prop := n <= fst m /\ cell_ge n (snd m).
 
@@ -172,17 +172,17 @@ Proof. revert i j; induction l as [|a t IH]; intros [|i] [|j] H; cbn; try reflex
 Lemma nth_error_set_nth_eq {A} (l : list A) i x : i < length l -> nth_error (set_nth l i x) i = Some x.
 Proof. revert i; induction l as [|a t IH]; intros [|i] H; cbn in *; try lia; [reflexivity|]. apply IH. lia. Qed.
 
-Lemma apply_mut_below n h m : n <= fst m -> forall l, l < n -> nth_error (apply_mut h m) l = nth_error h l.
+Lemma apply_mut_below n h m : n <= length h -> n <= fst m -> forall l, l < n -> nth_error (apply_mut h m) l = nth_error h l.
 Proof.
-  intros Hm l Hl. unfold apply_mut. destruct (Nat.ltb_spec (fst m) (length h)).
+  intros Hn Hm l Hl. unfold apply_mut. destruct (fst m <? length h) eqn:E.
   - apply nth_error_set_nth_ne. lia.
-  - apply nth_error_app_l. lia.
+  - apply Nat.ltb_ge in E. apply nth_error_app_l. lia.
 Qed.
 Lemma apply_mut_length h m : length h <= length (apply_mut h m).
 Proof. unfold apply_mut. destruct (fst m <? length h); [rewrite set_nth_length; lia | rewrite app_length; cbn; lia]. Qed.
 Lemma apply_mut_closed_from n h m : n <= length h -> mut_ok n m -> closed_from n h -> closed_from n (apply_mut h m).
 Proof.
-  intros Hn [Hm Hc] Hcl l c Hl E. unfold apply_mut in E. destruct (Nat.ltb_spec (fst m) (length h)) as [L|L].
+  intros Hn [Hm Hc] Hcl l c Hl E. unfold apply_mut in E. destruct (fst m <? length h) eqn:L; [apply Nat.ltb_lt in L | apply Nat.ltb_ge in L].
   - destruct (Nat.eq_dec (fst m) l) as [<-|Ne].
     + rewrite nth_error_set_nth_eq in E by exact L. inversion E; subst. exact Hc.
     + rewrite nth_error_set_nth_ne in E by exact Ne. eapply Hcl; eauto.
@@ -191,9 +191,10 @@ Proof.
     + rewrite nth_error_app2 in E by exact L2. destruct (l - length h) as [|k]; cbn in E; [inversion E; subst; exact Hc | destruct k; discriminate].
 Qed.
 
-Lemma muts_below n ms : Forall (mut_ok n) ms -> forall h l, l < n -> nth_error (fold_left apply_mut ms h) l = nth_error h l.
+Lemma muts_below n ms : Forall (mut_ok n) ms -> forall h l, n <= length h -> l < n -> nth_error (fold_left apply_mut ms h) l = nth_error h l.
 Proof.
-  induction 1 as [|m ms [Hm _] _ IH]; intros h l Hl; [reflexivity|]. cbn [fold_left]. rewrite IH by exact Hl. apply apply_mut_below; assumption.
+  induction 1 as [|m ms [Hm _] _ IH]; intros h l Hn Hl; [reflexivity|]. cbn [fold_left].
+  rewrite IH; [apply (apply_mut_below n); assumption | pose proof (apply_mut_length h m); lia | exact Hl].
 Qed.
 Lemma muts_closed_from n ms : Forall (mut_ok n) ms -> forall h, n <= length h -> closed_from n h -> closed_from n (fold_left apply_mut ms h).
 Proof.
@@ -239,6 +240,9 @@ Proof.
     + destruct (copy_fields _ _ hh src t) as [[h2 t']|] eqn:E2; [|discriminate]. inversion H; subst. eapply IH; eauto.
 Qed.
 
+Lemma hattr_lt n (ob : hobj) a : Forall (fun kv => hv_lt n (snd kv)) ob -> hv_lt n (hattr a ob).
+Proof. induction 1 as [|[k v] t Hv Ht IH]; [exact I|]. cbn [hattr]. destruct (String.eqb a k); assumption. Qed.
+
 Section Deep.
 Variables (specs : list cls_spec) (s : cls_spec) (fuel : nat) (h h' : heap) (o o' : hobj).
 Hypothesis Hstrict : forallb strict_deep specs = true.                          (* nested classes deep-copy everything *)
@@ -275,7 +279,96 @@ Theorem deepcopy_independent (ms : list mut) : Forall (mut_ok n) ms -> Forall (f
 Proof.
   intros Hms Ho a. destruct deepcopy_allocates as [e [He _]].
   apply (resolve1_below n); [| reflexivity | exact Hclosed |].
-  - intros l Hl. rewrite (muts_below n ms Hms) by exact Hl. subst h'. apply nth_error_app_l. exact Hl.
-  - induction o as [|[k v] t IH]; [exact I|]. cbn [hattr]. inversion Ho; subst. destruct (String.eqb a k); [assumption | apply IH; assumption].
+  - intros l Hl. rewrite (muts_below n ms Hms); [subst h'; apply nth_error_app_l; exact Hl | subst h'; rewrite app_length; unfold n; lia | exact Hl].
+  - apply hattr_lt. exact Ho.
 Qed.
 End Deep.
+
+(** ** copies are equal to their source *)
+Lemma res_simple_ext h e v : hv_lt (length h) v -> res_simple (h ++ e) v = res_simple h v.
+Proof. intro Hv. destruct v as [|x|l]; try reflexivity. cbn in *. rewrite nth_error_app_l by exact Hv. reflexivity. Qed.
+
+Lemma nth_error_alloc (h : heap) c : nth_error (h ++ [c]) (length h) = Some c.
+Proof. rewrite nth_error_app2 by lia. rewrite Nat.sub_diag. reflexivity. Qed.
+
+(** one value: the copy observes the same simple value, and is a valid reference of the new heap *)
+Lemma copy_hv_simple specs fuel deep h v h' v' : copy_hv specs fuel deep h v = Some (h', v') ->
+  res_simple h' v' = res_simple h v /\ hv_lt (length h') v' /\ hv_lt (length h) v.
+Proof.
+  destruct fuel as [|n]; [discriminate|]. cbn [copy_hv]. intro H.
+  destruct v as [|x|l]; try (inversion H; subst; repeat split; exact I).
+  destruct (nth_error h l) as [[x|d|t p|cn fs]|] eqn:E; try discriminate.
+  - inversion H; subst. cbn [res_simple]. rewrite nth_error_alloc, E. repeat split; [cbn; rewrite app_length; cbn; lia | apply nth_error_Some; congruence].
+  - assert (L : hv_lt (length h) (HRef l)) by (apply nth_error_Some; congruence).
+    destruct deep.
+    + destruct (copy_kvs _ h d) as [[h1 d']|]; [|discriminate]. inversion H; subst. cbn [res_simple]. rewrite nth_error_alloc, E.
+      repeat split; [cbn; rewrite app_length; cbn; lia | exact L].
+    + inversion H; subst. cbn [res_simple]. rewrite nth_error_alloc, E. repeat split; [cbn; rewrite app_length; cbn; lia | exact L].
+  - inversion H; subst. cbn [res_simple]. rewrite nth_error_alloc, E. repeat split; [cbn; rewrite app_length; cbn; lia | apply nth_error_Some; congruence].
+  - assert (L : hv_lt (length h) (HRef l)) by (apply nth_error_Some; congruence).
+    destruct (find_spec cn specs); [|discriminate]. destruct (copy_fields _ _ h fs _) as [[h1 fs']|]; [|discriminate]. inversion H; subst.
+    cbn [res_simple]. rewrite nth_error_alloc, E. repeat split; [cbn; rewrite app_length; cbn; lia | exact L].
+Qed.
+
+Lemma hv_lt_mono n m v : n <= m -> hv_lt n v -> hv_lt m v.
+Proof. intros H Hv. destruct v; cbn in *; try exact I. lia. Qed.
+
+Lemma copy_kvs_simple specs fuel : forall (d : list (str * hv)) h h' d',
+  Forall (fun kv => hv_lt (length h) (snd kv)) d -> copy_kvs (copy_hv specs fuel true) h d = Some (h', d') ->
+  map (fun kv => (fst kv, res_simple h' (snd kv))) d' = map (fun kv => (fst kv, res_simple h (snd kv))) d.
+Proof.
+  induction d as [|[k v] t IH]; intros h h' d' Hv H; cbn in H.
+  - inversion H; reflexivity.
+  - destruct (copy_hv specs fuel true h v) as [[h1 v1]|] eqn:E1; [|discriminate].
+    destruct (copy_kvs _ h1 t) as [[h2 t']|] eqn:E2; [|discriminate]. inversion H; subst. cbn [map fst snd].
+    inversion Hv as [|? ? Hv0 Hvt]; subst.
+    destruct (copy_hv_simple _ _ _ _ _ _ _ E1) as [S1 [V1 _]].
+    destruct (copy_hv_extends specs fuel true _ _ _ _ E1) as [e1 ->].
+    destruct (copy_kvs_extends _ (copy_hv_extends specs fuel true) _ _ _ _ E2) as [e2 ->].
+    f_equal.
+    + f_equal. rewrite res_simple_ext by exact V1. exact S1.
+    + assert (Hvt1 : Forall (fun kv => hv_lt (length (h ++ e1)) (snd kv)) t)
+        by (eapply Forall_impl; [|exact Hvt]; intros kv Hk; eapply hv_lt_mono; [|exact Hk]; rewrite app_length; lia).
+      rewrite (IH _ _ _ Hvt1 E2).
+      apply map_ext_in. intros [k' w] Hin. cbn [fst snd]. f_equal. apply res_simple_ext.
+      rewrite Forall_forall in Hvt. exact (Hvt _ Hin).
+Qed.
+
+Lemma copy_kvs_valid specs n : forall (d : list (str * hv)) h hh d' k w,
+  copy_kvs (copy_hv specs n true) h d = Some (hh, d') -> In (k, w) d' -> hv_lt (length hh) w.
+Proof.
+  induction d as [|[k0 v0] t0 IHt]; intros h hh d' k w E1 Hin; cbn in E1.
+  - inversion E1; subst. contradiction.
+  - destruct (copy_hv specs n true h v0) as [[h1 v1]|] eqn:E3; [|discriminate].
+    destruct (copy_kvs _ h1 t0) as [[h2 t']|] eqn:E4; [|discriminate]. inversion E1; subst.
+    destruct Hin as [Hin|Hin].
+    + inversion Hin; subst. destruct (copy_hv_simple _ _ _ _ _ _ _ E3) as [_ [V _]].
+      destruct (copy_kvs_extends _ (copy_hv_extends specs n true) _ _ _ _ E4) as [e ->].
+      eapply hv_lt_mono; [|exact V]. rewrite app_length. lia.
+    + eapply IHt; eauto.
+Qed.
+
+(** copy.copy / copy.deepcopy of one attribute value observes the same value *)
+Theorem copy_hv_equal specs fuel deep h v h' v' : closed h -> copy_hv specs fuel deep h v = Some (h', v') ->
+  resolve1 h' v' = resolve1 h v.
+Proof.
+  intros Hc H. destruct fuel as [|n]; [discriminate|]. cbn [copy_hv] in H.
+  destruct v as [|x|l]; try (inversion H; subst; reflexivity).
+  destruct (nth_error h l) as [[x|d|t p|cn fs]|] eqn:E; try discriminate.
+  - inversion H; subst. cbn [resolve1]. rewrite nth_error_alloc, E. reflexivity.
+  - assert (Hd : Forall (fun kv => hv_lt (length h) (snd kv)) d).
+    { unfold closed in Hc. rewrite Forall_forall in Hc. specialize (Hc _ (nth_error_In _ _ E)). unfold cell_lt in Hc. cbn [cell_vals] in Hc.
+      rewrite Forall_map in Hc. exact Hc. }
+    destruct deep.
+    + destruct (copy_kvs _ h d) as [[h1 d']|] eqn:E1; [|discriminate]. inversion H; subst. cbn [resolve1]. rewrite nth_error_alloc, E.
+      f_equal. f_equal.
+      destruct (copy_kvs_extends _ (copy_hv_extends specs n true) _ _ _ _ E1) as [e1 ->].
+      rewrite <- (copy_kvs_simple _ _ _ _ _ _ Hd E1). apply map_ext_in. intros [k w] Hin. cbn [fst snd]. f_equal. apply res_simple_ext.
+      (* the copied values are valid references of the heap they were allocated in *)
+      eapply copy_kvs_valid; eauto.
+    + inversion H; subst. cbn [resolve1]. rewrite nth_error_alloc, E. f_equal. f_equal.
+      apply map_ext_in. intros [k w] Hin. cbn [fst snd]. f_equal. apply res_simple_ext. rewrite Forall_forall in Hd. exact (Hd _ Hin).
+  - inversion H; subst. cbn [resolve1]. rewrite nth_error_alloc, E. reflexivity.
+  - destruct (find_spec cn specs); [|discriminate]. destruct (copy_fields _ _ h fs _) as [[h1 fs']|]; [|discriminate]. inversion H; subst.
+    cbn [resolve1]. rewrite nth_error_alloc, E. reflexivity.
+Qed.
